@@ -1230,8 +1230,14 @@ def _compare(fs, ref, obs, where, plain, eq_result):
                "behaviour probe: original %r, reloaded %r" %
                (ref["beh"], obs["beh"]), where)
     if ref["sharing"] != obs["sharing"]:
-        # not part of the property (equal values are enough): counted only
-        fs.notes["prior-sharing-lost"] = 1
+        # one prior object used in several places is one quantity (a model
+        # built on the object ties those places): the reloaded object is
+        # only equivalent if the places still share one object
+        fs.add("prior-sharing-kept", "%r->%r" % (ref["sharing"],
+                                                 obs["sharing"]),
+               "places that shared one prior object in the original: %r; "
+               "in the reloaded object: %r" % (ref["sharing"],
+                                               obs["sharing"]), where)
     if plain and eq_result is not True:
         fs.add("library-eq", repr(eq_result),
                "all arguments were lists/scalars but `loaded == original` "
